@@ -367,11 +367,19 @@ def run_symbol(name, S):
 
 
 # ------------------------------------------------------------------------------------------------ exploration
-def fresh_table(S, names, MS):
+def fresh_table(S, names, MS, col=None, p=None):
     table = {}
-    for nm in names:
+    for nm in list(names):
         MS.clear()
-        res, args, snap, inplace = run_symbol(nm, S)
+        try:
+            res, args, snap, inplace = run_symbol(nm, S)
+        except Exception as e:
+            if col is None:
+                raise
+            # a symbol that fails with no history at all: reported as such, and left out of the exploration
+            col.violation('C20:%s:raises' % nm, dict(p or {}, symbol=nm), '%s: %s' % (type(e).__name__, str(e)[:300]))
+            names.remove(nm)
+            continue
         table[nm] = canon_result(res)
     MS.clear()
     return table
@@ -384,7 +392,9 @@ def case_bfs(col, p):
     S = symbols()
     names = [n for n in p['alphabet'] if n in S]
     MS = ModuleState()
-    fresh = fresh_table(S, names, MS)
+    fresh = fresh_table(S, names, MS, col, p)
+    if any(nm not in fresh for nm in p['first']):
+        return
     cap = p['cap']
     MS.clear()
     seen = {}
@@ -610,10 +620,14 @@ def case_equalities(col, p):
     for a, b in EQUAL_SYMS:
         if a not in S or b not in S:
             continue
-        MS.clear()
-        ra = canon_result(run_symbol(a, S)[0])
-        MS.clear()
-        rb = canon_result(run_symbol(b, S)[0])
+        try:
+            MS.clear()
+            ra = canon_result(run_symbol(a, S)[0])
+            MS.clear()
+            rb = canon_result(run_symbol(b, S)[0])
+        except Exception as e:
+            col.violation('C20:%s:repeating_a_read_only_call_changes_the_result' % b, dict(p, pair=[a, b]), '%s: %s' % (type(e).__name__, str(e)[:300]))
+            continue
         col.tick(transitions=2)
         n += 1
         if not same_result(b, ra, rb):
@@ -651,19 +665,21 @@ def run(ctx):
     for nm in alpha:
         cases.append({'kind': 'bfs', 'first': [nm], 'alphabet': alpha, 'cap': cap})
     # every pair over the FULL alphabet as a depth-2 exploration (quick) / depth 3 from a rotating start (thorough)
+    # (thorough: depth 3 over the full alphabet from the symbols that own a memo table or module-level record, depth 2 from the others)
+    stateful = set(QUICK_SYMS)
     for nm in allnames:
-        cases.append({'kind': 'bfs', 'first': [nm], 'alphabet': allnames, 'cap': 10 ** 6, 'max_depth': 2 if ctx.quick else 3})
+        cases.append({'kind': 'bfs', 'first': [nm], 'alphabet': allnames, 'cap': 10 ** 6, 'max_depth': 2 if (ctx.quick or nm not in stateful) else 3})
     for nm in allnames:
         cases.append({'kind': 'layout', 'symbol': nm})
     cases.append({'kind': 'equalities'})
     seeds = sorted(set([0, 1, 2, 3, ctx.seed]))
     cases.append({'kind': 'hashseed', 'alphabet': alpha if ctx.quick else allnames, 'seeds': seeds})
-    ctx.note('alphabet: %d symbols (closure BFS over %d of them with state cap %d per first symbol; depth-%d exploration over all)' %
-             (len(allnames), len(alpha), cap, 2 if ctx.quick else 3))
+    ctx.note('alphabet: %d symbols (closure BFS over %d of them with state cap %d per first symbol; depth-2 exploration over all%s)' %
+             (len(allnames), len(alpha), cap, '' if ctx.quick else ', depth 3 from the %d stateful ones' % len(stateful)))
     explore.pmap(ctx, _dispatch, cases, chunk=1)
     if ctx.counters.get('state_cap_hits'):
-        ctx.cap_hit('state cap %d reached in %d of the per-first-symbol closures; all call sequences of length <= %d over the full alphabet were '
-                    'explored completely' % (cap, ctx.counters['state_cap_hits'], 2 if ctx.quick else 3))
+        ctx.cap_hit('state cap %d reached in %d of the per-first-symbol closures; all call sequences of length <= 2 over the full alphabet were '
+                    'explored completely%s' % (cap, ctx.counters['state_cap_hits'], '' if ctx.quick else ' (length 3 when the first call is a stateful symbol)'))
     ctx.tick(evaluations=len(cases))
     for c in (cases[0], cases[len(alpha) + 3], cases[-2]):
         cc = dict(c)
